@@ -8,7 +8,8 @@ from suites import run_suite, exp_silent, exp_one_error_no_write
 import docs
 
 LEAN_MODULES = ['GoSnaps.Props.C16', 'GoSnaps.Props.Tie.Flows', 'GoSnaps.Props.Tie.Matchers',
-                'GoSnaps.DriverX', 'GoSnaps.Lemmas.JsonPath', 'GoSnaps.Props.C16Json']
+                'GoSnaps.DriverX', 'GoSnaps.Lemmas.JsonPath', 'GoSnaps.Props.C16Json',
+                'GoSnaps.Lemmas.JsonEndToEnd', 'GoSnaps.Props.Tie.JsonEndToEnd']
 
 LEAVES = ['big', 'a', 's', 'o.x', 'o.y.0', 'l.0.k', 'n', 'deep.er.est', 'filter[status]', 'filter.status', 'ids[0]', 'ids.0']
 BASE = {'big': 1585369512231022593, 'a': 1, 's': 'str', 'o': {'x': True, 'y': [1, 2]}, 'l': [{'k': 'v'}], 'n': 'nn', 'deep': {'er': {'est': 5}},
